@@ -325,7 +325,8 @@ def r3(ctx):
         return None
 
     def make_probe(c):
-        return lambda ex, env: ex.ev(c.args[0], env) if c.args else UNKNOWN
+        a0 = c.args[0] if c.args else (c.keywords[0].value if c.keywords and c.keywords[0].arg else None)
+        return lambda ex, env: ex.ev(a0, env) if a0 is not None else UNKNOWN
     probes = {nn.id: ("load@%d" % i, make_probe(c)) for i, c in enumerate(files) for nn in nodes_with(f, c)}
     rows = []
     for cli in (None, "", "cli.conf.py"):
